@@ -12639,7 +12639,8 @@ func (p *PathAttributeCommunities) DecodeFromBytes(data []byte, options ...*Mars
 	if err != nil {
 		return err
 	}
-	if p.Length%4 != 0 {
+	// RFC 7606 7.8: a non-zero multiple of 4
+	if p.Length == 0 || p.Length%4 != 0 {
 		eCode := uint8(BGP_ERROR_UPDATE_MESSAGE_ERROR)
 		eSubCode := uint8(BGP_ERROR_SUB_ATTRIBUTE_LENGTH_ERROR)
 		return NewMessageError(eCode, eSubCode, nil, "communities length isn't correct")
@@ -12814,7 +12815,8 @@ func (p *PathAttributeClusterList) DecodeFromBytes(data []byte, options ...*Mars
 	if err != nil {
 		return err
 	}
-	if p.Length%4 != 0 {
+	// RFC 7606 7.10: a non-zero multiple of 4
+	if p.Length == 0 || p.Length%4 != 0 {
 		eCode := uint8(BGP_ERROR_UPDATE_MESSAGE_ERROR)
 		eSubCode := uint8(BGP_ERROR_SUB_ATTRIBUTE_LENGTH_ERROR)
 		return NewMessageError(eCode, eSubCode, nil, "clusterlist length isn't correct")
@@ -14964,7 +14966,8 @@ func (p *PathAttributeExtendedCommunities) DecodeFromBytes(data []byte, options 
 	if err != nil {
 		return err
 	}
-	if p.Length%ExtendedCommunityLen != 0 {
+	// RFC 7606 7.14: a non-zero multiple of 8
+	if p.Length == 0 || p.Length%ExtendedCommunityLen != 0 {
 		eCode := uint8(BGP_ERROR_UPDATE_MESSAGE_ERROR)
 		eSubCode := uint8(BGP_ERROR_SUB_ATTRIBUTE_LENGTH_ERROR)
 		return NewMessageError(eCode, eSubCode, nil, "extendedcommunities length isn't correct")
@@ -16030,7 +16033,8 @@ func (p *PathAttributeIP6ExtendedCommunities) DecodeFromBytes(data []byte, optio
 	if err != nil {
 		return err
 	}
-	if p.Length%IP6ExtendedCommunityLen != 0 {
+	// RFC 7606 7.15: a non-zero multiple of 20
+	if p.Length == 0 || p.Length%IP6ExtendedCommunityLen != 0 {
 		eCode := uint8(BGP_ERROR_UPDATE_MESSAGE_ERROR)
 		eSubCode := uint8(BGP_ERROR_SUB_ATTRIBUTE_LENGTH_ERROR)
 		return NewMessageError(eCode, eSubCode, nil, "extendedcommunities length isn't correct")
@@ -16332,7 +16336,8 @@ func (p *PathAttributeLargeCommunities) DecodeFromBytes(data []byte, options ...
 	if err != nil {
 		return err
 	}
-	if p.Length%12 != 0 {
+	// RFC 8092 5: a non-zero multiple of 12
+	if p.Length == 0 || p.Length%12 != 0 {
 		eCode := uint8(BGP_ERROR_UPDATE_MESSAGE_ERROR)
 		eSubCode := uint8(BGP_ERROR_SUB_ATTRIBUTE_LENGTH_ERROR)
 		return NewMessageError(eCode, eSubCode, nil, "large communities length isn't correct")
